@@ -1,0 +1,138 @@
+//go:build verif
+
+// Contracts for govc (see /verif/DESIGN.md). Comment-only file: with the
+// build tag off it is not part of the build, with it on it adds no code.
+
+package handshake
+
+//@ # ======================= C06: contact-request handshake =======================
+//@ # a.b: the session secret both sides derive from the two ephemeral keys
+//@ # key3 = H(a.b | a.B): protects the requester's identity and proof; key4 = H(a.b | A.B): protects the responder's proof
+//@ spec func hs_key3_resp(shared Bytes, peerEph Bytes, ownAcc Bytes) Bytes = sha256v(bcat(shared, boxkey(e2c_priv(ownAcc), peerEph)))
+//@ spec func hs_key3_req(shared Bytes, ownEph Bytes, peerAcc Bytes) Bytes = sha256v(bcat(shared, boxkey(ownEph, e2c_pub(peerAcc))))
+//@ spec func hs_key4(shared Bytes, ownAcc Bytes, peerAcc Bytes) Bytes = sha256v(bcat(shared, boxkey(e2c_priv(ownAcc), e2c_pub(peerAcc))))
+//@ # (a non-nil *[32]byte points to 32 bytes: type invariant, stated where the solver needs it)
+//@ pred hcOK(hc) = hc != nil && hc.reader != nil && hc.writer != nil && hc.ownAccountID != nil && hc.sharedEphemeral != nil && blen(bytes(hc.sharedEphemeral)) == 32
+//@ # what this side received in the authentication step of this session (set when the step succeeds)
+//@ ghost hs_box(Ref) Bytes
+//@ ghost hs_sig(Ref) Bytes
+//@ pred hcEph(hc) = hc.ownEphemeral != nil && hc.peerEphemeral != nil && hc.ownEphemeral != hc.sharedEphemeral && hc.peerEphemeral != hc.sharedEphemeral && hc.ownEphemeral != hc.peerEphemeral
+//@     && blen(bytes(hc.ownEphemeral)) == 32 && blen(bytes(hc.peerEphemeral)) == 32
+
+//@ func (*handshakeContext).generateOwnEphemeralAndSendPubKey
+//@   for C06
+//@   safety
+//@   requires hcOK(hc)
+//@   modifies hc.ownEphemeral
+//@   ensures [C06.ephemeral.fresh] ret0 == nil ==> hc.ownEphemeral != nil && fresh(hc.ownEphemeral)
+
+//@ # the peer's hello is accepted only if its ephemeral key has 32 bytes and is not a low-order point
+//@ func (*handshakeContext).receivePeerEphemeralPubKey
+//@   for C06
+//@   safety
+//@   requires hcOK(hc)
+//@   modifies hc.peerEphemeral
+//@   ensures [C06.hello.not-low-order] ret0 == nil ==> hc.peerEphemeral != nil && fresh(hc.peerEphemeral) && !loworder(bytes(hc.peerEphemeral))
+
+//@ func (*handshakeContext).receiveRequesterHello
+//@   for C06
+//@   requires hcOK(hc)
+//@   modifies hc.peerEphemeral
+//@   ensures [C06.hello.not-low-order] ret0 == nil ==> hc.peerEphemeral != nil && fresh(hc.peerEphemeral) && !loworder(bytes(hc.peerEphemeral))
+
+//@ func (*handshakeContext).sendRequesterHello
+//@   for C06
+//@   requires hcOK(hc)
+//@   modifies hc.ownEphemeral
+//@   ensures ret0 == nil ==> hc.ownEphemeral != nil && fresh(hc.ownEphemeral)
+
+//@ # both sides: the session secret is box.Precompute of the own (fresh) ephemeral key and the validated peer key
+//@ func (*handshakeContext).sendResponderHello
+//@   for C06
+//@   safety
+//@   requires hcOK(hc) && hc.peerEphemeral != nil && hc.peerEphemeral != hc.sharedEphemeral
+//@   modifies hc.ownEphemeral, bytes(hc.sharedEphemeral)
+//@   ensures [C06.session.secret] ret0 == nil ==> hc.ownEphemeral != nil && fresh(hc.ownEphemeral)
+//@        && bytes(hc.sharedEphemeral) == boxkey(bytes(hc.ownEphemeral), bytes(hc.peerEphemeral))
+//@        && bytes(hc.peerEphemeral) == old(bytes(hc.peerEphemeral))
+//@ func (*handshakeContext).receiveResponderHello
+//@   for C06
+//@   safety
+//@   requires hcOK(hc) && hc.ownEphemeral != nil && hc.ownEphemeral != hc.sharedEphemeral
+//@   modifies hc.peerEphemeral, bytes(hc.sharedEphemeral)
+//@   ensures [C06.session.secret] ret0 == nil ==> hc.peerEphemeral != nil && fresh(hc.peerEphemeral) && !loworder(bytes(hc.peerEphemeral))
+//@        && bytes(hc.sharedEphemeral) == boxkey(bytes(hc.ownEphemeral), bytes(hc.peerEphemeral))
+//@        && bytes(hc.ownEphemeral) == old(bytes(hc.ownEphemeral))
+
+//@ func (*handshakeContext).computeRequesterAuthenticateBoxKey
+//@   for C06
+//@   safety
+//@   requires hcOK(hc) && hcEph(hc) && (asRequester ==> hc.peerAccountID != nil)
+//@   ensures [C06.key3] ret1 == nil ==> ret0 != nil && fresh(ret0) && bytes(ret0) == ite(asRequester,
+//@        hs_key3_req(bytes(hc.sharedEphemeral), bytes(hc.ownEphemeral), pkv(hc.peerAccountID)),
+//@        hs_key3_resp(bytes(hc.sharedEphemeral), bytes(hc.peerEphemeral), skv(hc.ownAccountID)))
+//@ func (*handshakeContext).computeResponderAcceptBoxKey
+//@   for C06
+//@   safety
+//@   requires hcOK(hc) && hc.peerAccountID != nil
+//@   ensures [C06.key4] ret1 == nil ==> ret0 != nil && fresh(ret0) && bytes(ret0) == hs_key4(bytes(hc.sharedEphemeral), skv(hc.ownAccountID), pkv(hc.peerAccountID))
+//@        && keytype(hc.peerAccountID) == 1
+
+//@ # responder, step 3: the requester's identity is accepted only from a box that opens under key3 (which needs the
+//@ # requester's ephemeral secret or the responder's account key) and only with a signature, by that identity, over
+//@ # this session's secret
+//@ func (*handshakeContext).receiveRequesterAuthenticate
+//@   for C06
+//@   safety
+//@   requires hcOK(hc) && hcEph(hc)
+//@   modifies hc.peerAccountID
+//@   ghostset hs_box(hc) := bytes(boxEnvelope.Box)
+//@   ghostset hs_sig(hc) := bytes(request.RequesterAccountSig)
+//@   ensures [C06.responder.proof] ret0 == nil ==> hc.peerAccountID != nil && verify(pkv(hc.peerAccountID), bytes(hc.sharedEphemeral), hs_sig(hc))
+//@   ensures [C06.responder.box] ret0 == nil ==> sbox_ok(hs_box(hc), bytes(nonceRequesterAuthenticate), hs_key3_resp(bytes(hc.sharedEphemeral), bytes(hc.peerEphemeral), skv(hc.ownAccountID)))
+
+//@ # requester, step 4: the responder is accepted only with a signature, by the account the requester set out to
+//@ # reach, over this session's secret, from a box that opens under key4
+//@ func (*handshakeContext).receiveResponderAccept
+//@   for C06
+//@   safety
+//@   requires hcOK(hc) && hc.peerAccountID != nil
+//@   ensures [C06.requester.keytype] ret0 == nil ==> keytype(hc.peerAccountID) == 1
+//@   ghostset hs_box(hc) := bytes(boxEnvelope.Box)
+//@   ghostset hs_sig(hc) := bytes(response.ResponderAccountSig)
+//@   ensures [C06.requester.proof] ret0 == nil ==> verify(pkv(hc.peerAccountID), bytes(hc.sharedEphemeral), hs_sig(hc))
+//@   ensures [C06.requester.box] ret0 == nil ==> sbox_ok(hs_box(hc), bytes(nonceResponderAccept), hs_key4(bytes(hc.sharedEphemeral), skv(hc.ownAccountID), pkv(hc.peerAccountID)))
+
+//@ func (*handshakeContext).receiveRequesterAcknowledge
+//@   for C06
+//@   requires hcOK(hc)
+
+//@ func (*handshakeContext).sendResponderAccept
+//@   for C06
+//@   safety
+//@   requires hcOK(hc) && hc.peerAccountID != nil
+//@ func (*handshakeContext).sendRequesterAuthenticate
+//@   for C06
+//@   safety
+//@   requires hcOK(hc) && hcEph(hc) && hc.peerAccountID != nil
+//@ func (*handshakeContext).sendRequesterAcknowledge
+//@   for C06
+//@   requires hcOK(hc)
+
+//@ # The property, per side: a nil error means the peer proved possession of the account key by signing THIS
+//@ # session's secret - the box.Precompute of an ephemeral key generated in this call and a peer key that is not of
+//@ # low order (so the secret is not a constant an earlier signature could have been made over)
+//@ func ResponseUsingReaderWriter
+//@   for C06
+//@   requires reader != nil && writer != nil && ownAccountID != nil
+//@   ensures [C06.responder.authenticated] ret1 == nil ==> ret0 != nil
+//@        && (exists e Bytes, p Bytes, sg Bytes {verify(pkv(ret0), boxkey(e, p), sg)} :: !loworder(p) && verify(pkv(ret0), boxkey(e, p), sg))
+//@ func RequestUsingReaderWriter
+//@   for C06
+//@   requires reader != nil && writer != nil && ownAccountID != nil && peerAccountID != nil
+//@   ensures [C06.requester.authenticated] ret0 == nil ==> keytype(peerAccountID) == 1
+//@        && (exists e Bytes, p Bytes, sg Bytes {verify(pkv(peerAccountID), boxkey(e, p), sg)} :: !loworder(p) && verify(pkv(peerAccountID), boxkey(e, p), sg))
+
+//@ # builds the logging closure only (the closure reads hc when tyber.LogStep runs it; it writes nothing of hc)
+//@ func (*handshakeContext).toTyberStepMutator
+//@   for C06
